@@ -297,7 +297,6 @@ func (p *Proxy) Serve(l net.Listener) error {
 			return err
 		}
 		delay = 0
-		log.Debug(context.TODO(), "accepted connection", "address", conn.RemoteAddr().String())
 
 		go p.handleLoop(conn)
 	}
@@ -305,6 +304,10 @@ func (p *Proxy) Serve(l net.Listener) error {
 
 func (p *Proxy) handleLoop(conn net.Conn) {
 	start := time.Now()
+
+	// Do not call conn.RemoteAddr() in the accept loop, on a PROXY protocol listener
+	// it blocks until the peer has sent the header and would stall all other clients.
+	log.Debug(context.TODO(), "accepted connection", "address", conn.RemoteAddr().String())
 
 	p.connsMu.Lock()
 	p.conns[conn] = struct{}{}
